@@ -41,6 +41,7 @@ RULES = ["pushdown_projections", "normalize", "unnest_subqueries", "pushdown_pre
 
 _POOL = {}
 _REFS = {}
+_COLD = {}
 
 
 def plan(prop, tier):
@@ -102,6 +103,8 @@ def build_pool(seed, tier):
             return rng.choice(corpus.STATEFUL)
         if r < 0.22:
             return (rng.choice([None, None, "postgres", "snowflake", "duckdb", "oracle"]), rng.choice(corpus.SOFT_KEYWORDS))
+        if r < 0.34:
+            return (rng.choice([None, None, "postgres", "snowflake", "duckdb", "mysql", "bigquery", "spark", "tsql", "presto", "clickhouse", "oracle", "redshift"]), corpus.vocab_statement(rng))
         if ext and r < 0.6:
             return ext[rng.randrange(len(ext))]
         if idf and r < 0.8:
@@ -218,7 +221,21 @@ def prepare(prop, tier, seed):
     with cf.ProcessPoolExecutor(max_workers=w, mp_context=multiprocessing.get_context("fork")) as ex:
         for part in ex.map(_prepare_chunk, chunks):
             _REFS.update(part)
-    return {"reference_calls": len(calls), "reference_executions": 2 * len(calls)}
+    tp = TemplatePool("histsim")
+    try:
+        cold_tables(tp)
+    finally:
+        tp.close()
+    return {"reference_calls": len(calls), "reference_executions": 2 * len(calls), "cold_base_tables": len(_COLD.get("tables", {}))}
+
+
+def cold_tables(tp):
+    if "tables" not in _COLD:
+        r = tp.run(0, {"mode": "tables"}, timeout=120)
+        if "tables" not in r:
+            raise common.HarnessError("cannot read cold base tables: %s" % json.dumps(r)[:300])
+        _COLD["tables"] = r["tables"]
+    return _COLD["tables"]
 
 
 # --------------------------------------------------------------------------- driver interface
@@ -293,7 +310,7 @@ def execute(record, state):
     faults = {"failing_step": 0, "stack_exhaustion_armed": 0, "stack_exhaustion": 0, "gc_op": 0, "garbage_prealloc": 1 if cfg.get("garbage") else 0,
               "hashseed_nonzero": 1 if cfg.get("hashseed") else 0}
     probes = {"reused_after_error": 0, "reused_steps": 0, "steps_sharing_dialect": 0, "commutative_inputs": 0, "ref_exception_steps": 0}
-    r = tp.run(cfg.get("hashseed", 0), {"record": record}, timeout=150)
+    r = tp.run(cfg.get("hashseed", 0), {"record": record, "cold_tables": cold_tables(tp)}, timeout=150)
     if r.get("timeout"):
         v = {"oracle": "liveness", "cls": "timeout", "step": len(steps) - 1, "detail": "history did not finish within the wall limit (hang?)"}
         return {"violation": v, "digest": "timeout", "sig": "timeout", "nontrivial": True, "steps": 0, "faults": faults, "probes": probes, "population": "faulted"}
@@ -356,6 +373,19 @@ def execute(record, state):
             violation = {"oracle": "O-reused" if comp != "fresh" else "O-history", "cls": "%s/%s" % (step["op"], comp.split(":")[0]), "step": i,
                          "detail": "step %d %s (hash seed %s) gave %s; the same call alone in a cold process gives %s" % (i, _show(step), cfg.get("hashseed"), _short(got), _short(a))}
             break
+    leak_run = 0
+    if violation is None:
+        # words that the history added to a class-level table of a BASE class: probe them through the public API
+        for pr in r.get("leak_probes", []):
+            leak_run += 1
+            a, b = reference(pr["call"], tp)
+            if a[0] == "harness":
+                raise common.HarnessError("reference failed: %s" % a[1])
+            if a == b and pr["output"] != a:
+                violation = {"oracle": "O-leak-probe", "cls": pr["table"], "step": len(steps) - 1,
+                             "detail": "after this history %s contains %r, which a cold process does not have there; probing it: %s gives %s, alone in a cold process it gives %s" % (
+                                 pr["table"], pr["word"], _show(pr["call"]), _short(pr["output"]), _short(a))}
+                break
     return {
         "violation": violation,
         "digest": common.digest(outs),
@@ -366,6 +396,7 @@ def execute(record, state):
         "probes": probes,
         "population": "faulted" if cfg.get("faults") else "fault_free",
         "situations": ["import-order:" + common.short_hash(r.get("dialects_loaded_in_order", []), 4)],
+        "counters": {"leak_probes_run": leak_run, "new_base_table_words": r.get("new_base_table_words", 0)},
     }
 
 
